@@ -1194,6 +1194,36 @@ func (c *Conn) writeRequest(ctx *Ctx) error {
 
 	atomic.AddInt32(&c.openStreams, 1)
 
+	// The cancel timer may have fired while this request was being written,
+	// before there was a connection or a stream for it to cancel on: the caller
+	// has its timeout, and the stream would stay open at the server, never
+	// reset and never credited, for as long as the connection lives.
+	if ctx.timedOut.Load() {
+		release()
+
+		c.deletePending(id)
+
+		if c.takeReq(id) {
+			atomic.AddInt32(&c.openStreams, -1)
+		}
+
+		// Written here rather than queued on c.out: this is the loop that
+		// empties that queue.
+		h := AcquireFrameHeader()
+		h.SetStream(id)
+
+		rst := AcquireFrame(FrameResetStream).(*RstStream)
+		rst.SetCode(StreamCanceled)
+
+		h.SetBody(rst)
+
+		err = c.writeFrame(h)
+
+		ReleaseFrameHeader(h)
+
+		return err
+	}
+
 	if hasBody {
 		release()
 
